@@ -1,9 +1,54 @@
+import json
+import os
+import subprocess
+
+ROOT = os.path.dirname(os.path.dirname(os.path.abspath(__file__)))
+
+
+def post(ctx, rows, info, broken):
+    """Replay of finding trigger-writes-during-fire on the real dispatcher: harness/cmd/c32nested runs in its own
+    process (the same race can end in a Go fatal error) and searches up to N flushes for a second delivery."""
+    if info.get("replay"):
+        return
+    witness = os.path.join(ROOT, "corpus", "C32", "nested", "nested_write.json")
+    tool = os.path.join(ROOT, "harness", "bin", "c32nested")
+    if not (os.path.exists(witness) and os.path.exists(tool)):
+        return
+    for attempt in range(3):
+        try:
+            p = subprocess.run([tool, witness], stdout=subprocess.PIPE, stderr=subprocess.PIPE, timeout=150, text=True)
+            out, err, rc = p.stdout, p.stderr, p.returncode
+        except subprocess.TimeoutExpired:
+            out, err, rc = "", "timeout", 124
+        obs, detail = None, ""
+        for line in out.splitlines():
+            if line.startswith("{") and '"attempts"' in line:
+                try:
+                    obs = json.loads(line)
+                except ValueError:
+                    pass
+        died = [l for l in (out + "\n" + err).splitlines() if l.startswith("fatal error:") or l.startswith("panic:")]
+        if obs and obs.get("duplicate"):
+            detail = obs.get("detail", "")
+        elif rc not in (0, 124) and died:
+            detail = "the process died in the concurrent synchronous flush: " + died[0]
+            obs = {"exit": rc, "died": died[0]}
+        if detail:
+            rows.append({"i": len(rows), "source": "c32nested:corpus/C32/nested/nested_write.json",
+                         "input": json.load(open(witness)), "obs": obs, "holds": False,
+                         "class": "trigger-writes-during-fire", "detail": detail, "in_domain": False,
+                         "tags": ["nested-write-replay"], "nontrivial": False, "key": "c32nested"})
+            return
+    ctx.notes.append("c32nested: no second delivery observed in 3 x 400 flushes (the race window was not hit)")
+
+
 SPEC = {
     "id": "C32",
     "coq_props": ["Properties/C32.v", "Corr/C32.v"],
     "module": "MS.Properties.C32",
     "theorems": ["C32_match_spec", "C32_exactly_once", "C32_multiplicity", "C32_no_foreign", "C32_schedules",
-                 "C32_never_too_much", "C32_progress", "C32_terminates", "C32_reaches_quiescence", "C32_match_unanchored"],
+                 "C32_never_too_much", "C32_progress", "C32_terminates", "C32_reaches_quiescence", "C32_match_unanchored",
+                 "C32_sync_refuted"],
     "corr_require": "Require Import MS.Corr.C32.",
     "agrees": "C32.agrees",
     "in_domain": "C32.in_domain",
@@ -29,8 +74,10 @@ SPEC = {
     ],
     "assumptions": [
         "flushed transactions = the serialized TGs handed to the ReplicationSender after the WAL sync (executor/wal.go:318-320)",
-        "synchronous mode (no SyncWAL goroutine) with CONCURRENT WriteCSM callers is outside the theorems: tpd.m is then an unsynchronised "
-        "map written by several goroutines (a data race); the harness uses concurrent writers only in background mode",
+        "synchronous mode (no SyncWAL goroutine) with CONCURRENT flushes is outside the guarded theorems: tpd.m is then an unsynchronised map "
+        "written by several goroutines. This includes a single writer plus a trigger that writes from Fire (contrib/ondiskagg): refuted by "
+        "C32_sync_refuted and replayed on the real dispatcher by harness/cmd/c32nested (finding trigger-writes-during-fire); the differential "
+        "cases use concurrent writers only in background mode and non-writing triggers",
         "'pattern matches the bucket' is Matcher.Match as implemented: unanchored, unescaped regexp search (observation, see notes/C32.md)",
         "delivery is asserted at quiescence; WALFileType.Shutdown does not wait for the fire goroutines of the last messages (observation)",
     ],
@@ -45,4 +92,5 @@ SPEC = {
                   "exercised (several goroutines per case). Synchronous mode with concurrent callers is excluded (data race on tpd.m). Go's regexp "
                   "is trusted to implement the language of [^/]+ / '.' / literals. Modelled not verified: written.go, wal.go:264-340, trigger.go:176.",
     "design_ref": "§6 C32",
+    "post": post,
 }
